@@ -192,7 +192,9 @@ func (f *OrefaFile) Read(b []byte) (n int, err error) {
 	}
 
 	nd.mu.RLock()
-	n = copy(b, nd.data[f.at:])
+	if f.at < int64(len(nd.data)) { // an offset at or beyond the end of the file reads as EOF.
+		n = copy(b, nd.data[f.at:])
+	}
 	nd.mu.RUnlock()
 
 	f.at += int64(n)
@@ -626,6 +628,18 @@ func (f *OrefaFile) Write(b []byte) (n int, err error) {
 	}
 
 	nd.mu.Lock()
+
+	if gap := f.at - int64(len(nd.data)); gap > 0 && len(b) > 0 {
+		// the offset is beyond the end of the file: the gap reads as zeros.
+		nd.data = append(nd.data, make([]byte, gap)...)
+	}
+
+	if f.at > int64(len(nd.data)) {
+		// nothing to write beyond the end of the file.
+		nd.mu.Unlock()
+
+		return 0, nil
+	}
 
 	n = copy(nd.data[f.at:], b)
 	if n < len(b) {
